@@ -116,18 +116,18 @@ CHECKS = {
 EXTRA = {
     "C01": " Also the target's own datagrams reflected unchanged.",
     "C02": " Plus every 3-event history of forged hellos (original / fresh numbers) and silences of 0.5 / 2.5 / 6 s against a pinned client that never sees an honest hello: no key, never connected, nothing handed to send() in clear.",
-    "C03": " Plus handshakes whose round trip is swept frame by frame from 0.2 to 2.3 s at three frame lengths (879 quick configurations); a keyed client's hello-typed datagrams must be ciphertext too.",
+    "C03": " Plus handshakes whose round trip is swept frame by frame from 0.2 to 2.3 s at three frame lengths (879 quick configurations); a keyed client's hello-typed datagrams must be ciphertext too; keep-alive intervals below the send interval with busy-loop owners on a silent link.",
     "C04": " Plus forged headers with chosen datagram numbers (window walks) ahead of the replays.",
     "C05": " Plus a datagram-mate whose application callback raises, and resend intervals above the message timeout (one copy in flight) under outages of 1-3 message timeouts.",
     "C06": " Plus the two ends configured with different MTUs (split under one setting, reassembled under the other).",
     "C07": " Plus sends from inside send callbacks, content-selective loss of one fragment (copies included) over long round trips, 8- and 20-fragment best-effort messages.",
     "C08": " The connection-window part also feeds datagrams of 2-3 messages (fresh / received / stale numbers at every position) and runs on receivers with non-default timing settings.",
     "C09": " Plus further sends behind 1-3 unacked retry-mode messages judged frame by frame (2724 quick configurations) and one history of 65700 fragmented sends per MTU.",
-    "C10": " Plus a client that retries its challenge response with fresh numbers (library path, hand-sealed bundles, inside the handshake datagram, from the connect callback).",
+    "C10": " Plus a client that retries its challenge response with fresh numbers (library path, hand-sealed bundles, inside the handshake datagram, from the connect callback), and a configuration with access logs enabled.",
     "C11": " Plus the server's own genuine datagrams reflected to it from the client's address (server ahead by 0 / 40 datagrams, both entry points).",
     "C13": " Serializable values also go through dumpb/loadb/dumpz/loadz; every 3-operation history of valid / refused encodes and valid / damaged decodes (35937 histories); decoding with a caller-supplied registry at 12 positions.",
     "C14": " Plus records of every registered class repeated up to 1024 (16384) times in every container shape with a values-per-byte bound, and Serializable.loadz on gzip members inflating to 16 MiB (96 MiB).",
-    "C15": " Plus classes with mutable class-level defaults under every sequence of 3 (4) decodes / constructions, all results compared again at the end.",
+    "C15": " Plus classes with mutable class-level defaults under every sequence of 3 (4) decodes / constructions, all results compared again at the end; nested classes with their own (list / string) JSON form in every typed position.",
     "C16": " Route pairs are also declared in a Resource subclass (names not in declaration order) and with a websocket route first / second.",
     "C17": " Plus 1.5e6 names with percent escapes (every escaped spelling of dot segments and separators) and relative roots across working-directory changes.",
     "C18": " Plus endpoints that close / send / echo from inside the callback of their k-th frame for every frame sequence and cut.",
